@@ -441,6 +441,8 @@ impl Allocator for Arena {
 
   #[inline]
   fn increase_discarded(&self, size: u32) {
+    assert!(!self.ro, "ARENA is read-only");
+
     #[cfg(feature = "tracing")]
     tracing::debug!("discard {size} bytes");
 
@@ -459,6 +461,8 @@ impl Allocator for Arena {
 
   #[inline]
   fn set_minimum_segment_size(&self, size: u32) {
+    assert!(!self.ro, "ARENA is read-only");
+
     self.header_mut().min_segment_size = size;
   }
 
